@@ -476,10 +476,9 @@ Proof.
   cbv beta iota zeta; cbn [pstate_eqb pstate_code st set_st set_resp_pending N.eqb Pos.eqb app];
   (split; [|split]; [| | reflexivity]).
   all: try (unfold track_in; cbn [is_fail]; cbn; rewrite ?Hph, ?Eyn; cbn; destruct I; inv_solve;
-            intros; split; [congruence | apply i_salg0; congruence]).
+            try (intros; split; [congruence | apply i_salg0; congruence]); try (repeat split; tauto)).
   all: try (unfold check32_in; cbn [is_fail]; rewrite A; unfold answer32; rewrite Hph; cbn; apply Hcommit; reflexivity).
   all: try (unfold check32_in; cbn [is_fail]; rewrite A, Hph, Eyn; reflexivity).
-  all: goals.
 Qed.
 
 (* MacKey / LTK: the monitor's definition (DH function on the public keys) agrees with the model's
@@ -633,12 +632,7 @@ Definition good34 (t : option nat) : Prop := t = None \/ t = Some t_dist_stale.
 Definition out_ok (c : smcfg) (m : mon) (x : res DB) : Prop :=
   let '(s', r, ev) := x in
   Inv c s' (track_out K D c m r ev) /\ good32 (check32_out K c m r) /\ good34 (check34_pdu m r)
-  /\ (c_inp c <> SMSelectModel.InYesNo -> check32_out K c m r = None).
-
-Lemma no_user_states c s m :
-  Inv c s m -> c_inp c <> SMSelectModel.InYesNo -> resp_pending s = false ->
-  True.
-Proof. auto. Qed.
+  /\ (~ numeric_cfg c -> check32_out K c m r = None).
 
 Lemma distribute_ok c s m :
   Inv c s m -> m_ph m <> PLescPk -> (m_ph m = PLescRand -> e_user (m_les m) <> UNo) ->
@@ -651,7 +645,7 @@ Proof.
     destruct (m_ph m) eqn:Ep; try reflexivity; try congruence.
     cbn. destruct (e_user (m_les m)) eqn:Eu; try reflexivity. exfalso. apply Hp2; auto. }
   assert (Inv c s (track_out K D c m [] []) /\ good32 (check32_out K c m []) /\ good34 (check34_pdu m [])
-          /\ (c_inp c <> SMSelectModel.InYesNo -> check32_out K c m [] = None)) as Hnone.
+          /\ (~ numeric_cfg c -> check32_out K c m [] = None)) as Hnone.
   { split; [|split; [|split]]; auto; try (left; auto; fail). }
   destruct (c_bond c && encrypted s) eqn:Eb; [|exact Hnone].
   apply andb_prop in Eb. destruct Eb as [Eb Ee].
@@ -675,6 +669,141 @@ Proof.
     destruct (o_cur (m_dist m)); [|right; reflexivity]. cbn.
     destruct (D4 eq_refl) as [-> ->]. rewrite list_eqb_refl. left; reflexivity.
   - reflexivity.
+Qed.
+
+(* lesc_l2cap_output *)
+Lemma lesc_output_ok c s m :
+  Inv c s m -> lesc_output_available s = true -> out_ok c m (lesc_output K D c s).
+Proof.
+  intros I Ha. unfold lesc_output_available in Ha. unfold out_ok, lesc_output.
+  pose proof (ph_of I) as Hph. pose proof (i_var I) as V. pose proof (i_ph I) as R. unfold ph_rel in R.
+  pose proof (i_les I) as L. unfold les_rel in L. pose proof (i_user I) as U.
+  destruct (st s) eqn:Est; try discriminate.
+  - (* user_response_failed: Pairing Failed *)
+    destruct R as [R1 R2]. split; [|split; [|split]].
+    + unfold track_out. cbn [is_fail]. destruct I. inv_solve; rewrite ?Est in *; cbn in *; auto; try discriminate.
+      destruct (c_var c); auto.
+    + left. unfold check32_out. cbn [is_fail]. rewrite Hph, R2. reflexivity.
+    + left. reflexivity.
+    + intros. unfold check32_out. cbn [is_fail]. rewrite Hph, R2. reflexivity.
+  - (* user_response_success: Eb without looking at Ea *)
+    destruct R as [R1 R2]. destruct L as (La & Lb & Lc & Ld).
+    assert (mon_f5 K m = lesc_keys K s) as F by (eapply mon_f5_eq; eauto; rewrite Est; exact Logic.I).
+    unfold les_a, les_d in *. destruct La as [A1 A2]. destruct Ld as [D1 D2].
+    destruct (lesc_keys K s) as [mackey key] eqn:Ek.
+    assert (mon_eb K m = lesc_eb K c s mackey) as Heb.
+    { unfold mon_eb, lesc_eb, maddr. rewrite F, D1, D2, A2, (i_peer I). reflexivity. }
+    unfold lesc_completed.
+    assert (good32 (check32_out K c m (13 :: lesc_eb K c s mackey))) as G.
+    { unfold check32_out. cbn [is_fail]. cbn. rewrite Hph, R2. cbn.
+      destruct (e_ea (m_les m)) as [ea|]; [|right; left; reflexivity].
+      destruct (ea_ok K m ea); cbn; [|right; right; left; reflexivity].
+      rewrite Heb, list_eqb_refl. left. reflexivity. }
+    destruct (c_bond c) eqn:Eb; destruct (c_var c) eqn:Ev; try contradiction;
+    (split; [|split; [|split]]; [ | exact G | left; reflexivity | intros Hn; contradiction ]);
+    unfold track_out; cbn [is_fail]; cbn; unfold completed; rewrite F; cbn; unfold maddr; rewrite ?(i_peer I), ?(i_db I);
+    destruct I; inv_solve; try (rewrite Ev; exact Logic.I); intuition congruence.
+  - (* public keys exchanged: our confirm value *)
+    destruct L as (La & Lb). split; [|split; [|split]].
+    + unfold track_out. cbn [is_fail]. cbn. destruct I. unfold les_a, les_b in *. inv_solve.
+    + left. unfold check32_out. cbn [is_fail]. cbn. rewrite Hph. reflexivity.
+    + left. reflexivity.
+    + intros. unfold check32_out. cbn [is_fail]. cbn. rewrite Hph. reflexivity.
+Qed.
+
+Lemma l2cap_output_ok c s m : Inv c s m -> out_ok c m (l2cap_output K D c s).
+Proof.
+  intros I. unfold l2cap_output.
+  pose proof (ph_of I) as Hph. pose proof (i_var I) as V. pose proof (i_ph I) as R. unfold ph_rel in R.
+  assert (lesc_output_available s = false -> m_ph m <> PLescPk /\ (m_ph m = PLescRand -> e_user (m_les m) <> UNo)) as Hna.
+  { unfold lesc_output_available. intros H. destruct (st s); try discriminate; rewrite Hph; split; try discriminate;
+    intros _; destruct R as [_ ->]; discriminate. }
+  assert (check32_out K c m [] = None -> out_ok c m (s, [], [])) as Hnil.
+  { intros H. unfold out_ok. split; [|split; [|split]]; auto; try (left; auto; fail). }
+  assert (lesc_output_available s = false -> check32_out K c m [] = None) as Hchk.
+  { intros H. destruct (Hna H) as [H1 H2]. unfold check32_out. cbn [is_fail].
+    destruct (m_ph m) eqn:Ep; try reflexivity; try congruence.
+    cbn. destruct (e_user (m_les m)) eqn:Eu; try reflexivity. exfalso. apply H2; auto. }
+  destruct (c_var c) eqn:Ev.
+  - (* legacy: key distribution only *)
+    apply distribute_ok; auto; destruct (st s); try contradiction; rewrite Hph; discriminate.
+  - destruct (lesc_output_available s) eqn:Ea; [apply lesc_output_ok; auto|]. apply Hnil. auto.
+  - destruct (lesc_output_available s) eqn:Ea; [apply lesc_output_ok; auto|].
+    destruct (Hna eq_refl). apply distribute_ok; auto.
+  - apply Hnil. unfold check32_out. cbn [is_fail].
+    destruct (st s); try contradiction. rewrite Hph. reflexivity.
+Qed.
+
+(* ---- one operation ---- *)
+Definition step_good (c : smcfg) (m : mon) (o : op) (x : state * out) : Prop :=
+  let '(s', r) := x in
+  Inv c s' (track c m o r) /\ shape_ok o r = true /\ good32 (check32 K c m o r)
+  /\ check33 D c m o r = None /\ good34 (check34 c m o r)
+  /\ (~ numeric_cfg c -> check32 K c m o r = None).
+
+Lemma step_ok c s m o : Inv c s m -> dead s = false -> step_good c m o (step c s o).
+Proof.
+  intros I Hd. unfold step_good, SMModel.step. rewrite Hd.
+  assert (m_dead m = false) as Hmd by (rewrite (i_dead I); auto).
+  unfold SMSpec.track. rewrite Hmd.
+  destruct o as [pdu| | | |n|b|ediv rnd| |a].
+  - (* In *)
+    pose proof (l2cap_input_ok pdu I) as H. unfold in_ok in H.
+    destruct (l2cap_input K D c s pdu) as [[s1 r] ev]. destruct H as (H1 & H2 & H3).
+    split; [exact H1|]. split; [reflexivity|]. cbn [check32 check33 check34]. rewrite H2, H3.
+    split; [left; reflexivity|]. split; [reflexivity|]. split; [left; reflexivity|]. auto.
+  - (* Out *)
+    pose proof (l2cap_output_ok I) as H. unfold out_ok in H.
+    destruct (l2cap_output K D c s) as [[s1 r] ev]. destruct H as (H1 & H2 & H3 & H4).
+    split; [exact H1|]. split; [reflexivity|]. cbn [check32 check33 check34]. auto.
+  - (* Yes *)
+    destruct (resp_pending s) eqn:Ep.
+    + pose proof (i_pend I Ep) as Hn. pose proof (i_ph I) as R. unfold ph_rel in R.
+      destruct (pstate_eqb (st s) UserWait) eqn:Es.
+      * assert (st s = UserWait) as Est by (destruct (st s); try discriminate; reflexivity).
+        rewrite Est in R. destruct R as [R1 R2]. rewrite R2. cbn.
+        split; [|split; [reflexivity|split; [left; reflexivity|split; [reflexivity|split; [left; reflexivity|auto]]]]].
+        pose proof (i_les I) as L. unfold les_rel in L. rewrite Est in L. pose proof (i_var I) as V. rewrite Est in V.
+        destruct I. inv_solve; try discriminate; auto; try (destruct (c_var c); auto; fail).
+      * split; [|split; [reflexivity|split; [right; right; right; reflexivity|split; [reflexivity|split; [left; reflexivity|intros Hc; contradiction]]]]].
+        destruct I. inv_solve.
+    + split; [exact I|]. repeat split; auto; left; reflexivity.
+  - (* No *)
+    destruct (resp_pending s) eqn:Ep.
+    + pose proof (i_pend I Ep) as Hn. pose proof (i_ph I) as R. unfold ph_rel in R.
+      destruct (pstate_eqb (st s) UserWait) eqn:Es.
+      * assert (st s = UserWait) as Est by (destruct (st s); try discriminate; reflexivity).
+        rewrite Est in R. destruct R as [R1 R2]. rewrite R2. cbn.
+        split; [|split; [reflexivity|split; [left; reflexivity|split; [reflexivity|split; [left; reflexivity|auto]]]]].
+        pose proof (i_les I) as L. unfold les_rel in L. rewrite Est in L. pose proof (i_var I) as V. rewrite Est in V.
+        destruct I. inv_solve; try discriminate; auto; try (destruct (c_var c); auto; fail).
+      * split; [|split; [reflexivity|split; [right; right; right; reflexivity|split; [reflexivity|split; [left; reflexivity|intros Hc; contradiction]]]]].
+        destruct I. inv_solve.
+    + split; [exact I|]. repeat split; auto; left; reflexivity.
+  - (* Passkey *)
+    split; [|repeat split; auto; left; reflexivity]. destruct I. inv_solve.
+  - (* Enc *)
+    rewrite (i_enc I). destruct (Bool.eqb (encrypted s) b).
+    + split; [exact I|]. repeat split; auto; left; reflexivity.
+    + split; [|repeat split; auto; left; reflexivity]. destruct I. inv_solve.
+  - (* Key *)
+    split; [exact I|]. split; [reflexivity|]. split; [left; reflexivity|]. split; [|split; [left; reflexivity|auto]].
+    unfold check33, expected_key, find_key, maddr.
+    pose proof (ph_of I) as Hph. pose proof (i_key I) as Hk.
+    rewrite (i_db I), (i_peer I).
+    destruct (c_var c); try reflexivity;
+    (destruct (st s) eqn:Est; rewrite Hph; cbn;
+     try (destruct (c_bond c); [destruct (db_find D (bonds s) ediv rnd (remote_addr (peer s))); try rewrite list_eqb_refl; reflexivity | reflexivity]);
+     destruct ((ediv =? 0) && (rnd =? 0));
+     try (rewrite (Hk eq_refl), list_eqb_refl; reflexivity);
+     (destruct (c_bond c); [destruct (db_find D (bonds s) ediv rnd (remote_addr (peer s))); try rewrite list_eqb_refl; reflexivity | reflexivity])).
+  - (* Status *)
+    split; [exact I|]. repeat split; auto; left; reflexivity.
+  - (* Reset *)
+    split; [|repeat split; auto; left; reflexivity].
+    pose proof (i_pend I) as Hp. destruct I. unfold new_connection. inv_solve.
+    + destruct (c_var c); exact Logic.I.
+    + repeat split; auto; try discriminate. intros [H|H]; discriminate.
 Qed.
 
 End Proofs.
